@@ -173,4 +173,107 @@ theorem strict_implies_spec (g : Geometry) (bpp : Nat) (bs : Bytes) (px : List P
     have := strictTiles_implies_spec bpp _ {} {} bs tiles r' (hexLe_refl _) ht
     simp [decodeHextile, this]
 
+/-! ## TRLE: "palette of the previous tile"
+
+RFC 6143 lets sub-encodings 127/129 reuse "the palette of the previous tile".  `Spec.decodeTRLETile`
+keeps the palette of the last *palettised* tile; LibVNCClient (and the TRLE encoders in the field)
+treat a solid tile as ending that palette (`last_type = 1`).  The strict decoder forgets the palette
+after a solid tile; on the streams it accepts, `Spec.decodeTRLE` gives the same pixels. -/
+
+def trleStrictAfter (m : Nat) (prev : List Pixel) : List Pixel := if m = 1 then [] else prev
+
+def decodeTRLETilesStrict (cp : CPix) : List TileRect → List Pixel → Dec (List (List Pixel))
+  | [], _, bs => some ([], bs)
+  | t :: ts, prev, bs =>
+    match decodeTRLETile cp t.w t.h prev bs with
+    | none => none
+    | some ((px, pal), bs') =>
+      (decodeTRLETilesStrict cp ts (trleStrictAfter (bs.headD 0).toNat pal) bs').map fun (rest, r) => (px :: rest, r)
+
+def decodeTRLEStrict (g : Geometry) (cp : CPix) : Dec (List Pixel) := fun bs =>
+  (decodeTRLETilesStrict cp (tileGrid 16 g) [] bs).map fun (tiles, r) => (assemble 16 g tiles, r)
+
+/-- the strict decoder knows nothing, or exactly what the specification knows -/
+def TrleLe (a b : List Pixel) : Prop := a = [] ∨ a = b
+
+theorem decodeTRLETile_mono (cp : CPix) (tw th : Nat) {a b : List Pixel} (hab : TrleLe a b) (bs : Bytes)
+    (px a' : List Pixel) (r : Bytes) (h : decodeTRLETile cp tw th a bs = some ((px, a'), r)) :
+    ∃ b', decodeTRLETile cp tw th b bs = some ((px, b'), r) ∧ TrleLe a' b' := by
+  rcases hab with rfl | rfl
+  · cases bs with
+    | nil => simp [decodeTRLETile] at h
+    | cons m bs =>
+      simp only [decodeTRLETile] at h ⊢
+      by_cases h127 : m.toNat = 127
+      · simp [h127] at h
+      · simp only [h127, if_false] at h ⊢
+        by_cases h129 : m.toNat = 129
+        · simp [h129] at h
+        · simp only [h129, if_false] at h ⊢
+          by_cases hp : 2 ≤ m.toNat ∧ m.toNat ≤ 16
+          · simp only [hp, and_self, if_true] at h ⊢
+            exact ⟨a', h, Or.inr rfl⟩
+          · simp only [hp, if_false] at h ⊢
+            by_cases h130 : m.toNat ≥ 130
+            · simp only [h130, if_true] at h ⊢
+              exact ⟨a', h, Or.inr rfl⟩
+            · simp only [h130, if_false] at h ⊢
+              have em : UInt8.ofNat m.toNat = m := by simp
+              rw [em] at h ⊢
+              cases hz : decodeZRLETile cp tw th (m :: bs) with
+              | none => simp [hz] at h
+              | some q =>
+                obtain ⟨p, r'⟩ := q
+                simp only [hz, Option.map_some, Option.some.injEq, Prod.mk.injEq] at h ⊢
+                obtain ⟨⟨e1, e2⟩, e3⟩ := h
+                subst e1 e2 e3
+                exact ⟨b, ⟨⟨rfl, rfl⟩, rfl⟩, Or.inl rfl⟩
+  · exact ⟨a', h, Or.inr rfl⟩
+
+theorem trleLe_strictAfter (m : Nat) {a b : List Pixel} (h : TrleLe a b) : TrleLe (trleStrictAfter m a) b := by
+  unfold trleStrictAfter
+  split
+  · exact Or.inl rfl
+  · exact h
+
+theorem strictTrleTiles_implies_spec (cp : CPix) :
+    ∀ (ts : List TileRect) (a b : List Pixel) (bs : Bytes) (tiles : List (List Pixel)) (r : Bytes),
+      TrleLe a b → decodeTRLETilesStrict cp ts a bs = some (tiles, r) →
+      decodeTRLETiles cp ts b bs = some (tiles, r) := by
+  intro ts
+  induction ts with
+  | nil => intro a b bs tiles r _ h; simpa [decodeTRLETilesStrict, decodeTRLETiles] using h
+  | cons t ts ih =>
+    intro a b bs tiles r hab h
+    simp only [decodeTRLETilesStrict] at h
+    cases ht : decodeTRLETile cp t.w t.h a bs with
+    | none => simp [ht] at h
+    | some q =>
+      obtain ⟨⟨px, a'⟩, bs'⟩ := q
+      simp only [ht] at h
+      obtain ⟨b', e1, hle⟩ := decodeTRLETile_mono cp t.w t.h hab bs px a' bs' ht
+      cases hr : decodeTRLETilesStrict cp ts (trleStrictAfter (bs.headD 0).toNat a') bs' with
+      | none => rw [hr] at h; simp at h
+      | some q2 =>
+        obtain ⟨rest, r'⟩ := q2
+        rw [hr] at h
+        simp only [Option.map_some, Option.some.injEq, Prod.mk.injEq] at h
+        obtain ⟨e2, e3⟩ := h
+        subst e2 e3
+        have := ih _ b' bs' rest r' (trleLe_strictAfter _ hle) hr
+        simp [decodeTRLETiles, e1, this]
+
+theorem strictTrle_implies_spec (g : Geometry) (cp : CPix) (bs : Bytes) (px : List Pixel) (r : Bytes)
+    (h : decodeTRLEStrict g cp bs = some (px, r)) : decodeTRLE g cp bs = some (px, r) := by
+  simp only [decodeTRLEStrict] at h
+  cases ht : decodeTRLETilesStrict cp (tileGrid 16 g) [] bs with
+  | none => simp [ht] at h
+  | some q =>
+    obtain ⟨tiles, r'⟩ := q
+    simp only [ht, Option.map_some, Option.some.injEq, Prod.mk.injEq] at h
+    obtain ⟨e1, e2⟩ := h
+    subst e1 e2
+    have := strictTrleTiles_implies_spec cp _ [] [] bs tiles r' (Or.inl rfl) ht
+    simp [decodeTRLE, this]
+
 end VncModel.Client
